@@ -54,6 +54,7 @@ type shScenario struct {
 	Cancels     bool // some calls carry short context deadlines (stale replies follow: attribution oracles off, transport monitors on)
 	FineGrained bool
 	Flusher     bool
+	Hooks       bool // logging hooks installed on the client; every hook call is a scheduling point
 }
 
 type shRec struct {
@@ -149,6 +150,7 @@ func genC14(t *Tape) *shScenario {
 			}
 		}
 	}
+	sc.Hooks = t.Choose(3) == 0
 	return sc
 }
 
@@ -162,6 +164,7 @@ type shOutcome struct {
 	WireBad  string
 	IOBad    string
 	HeldBad  string
+	HookBad  string
 	InitRegs [4]uint16
 }
 
@@ -325,10 +328,17 @@ func runShared(rc *RunCtx, sc *shScenario) *shOutcome {
 	}
 	var closer func() error
 	var connect func() error
+	var hooks *shHooks
+	if sc.Hooks {
+		hooks = &shHooks{s: s, race: sc.Race, owner: -1, cancels: sc.Cancels, tcp: fr == TCP, mon: &mon, byFrame: byFrame, bad: &out.HookBad}
+	}
 	switch sc.Kind {
 	case KTCP, KRTU:
 		conf := modbus.ClientConfig{ReadTimeout: 200 * time.Millisecond, WriteTimeout: time.Second,
 			DialContextFunc: func(context.Context, string) (net.Conn, error) { return newPipe(), nil }}
+		if hooks != nil {
+			conf.Hooks = hooks
+		}
 		var c *modbus.Client
 		if sc.Kind == KTCP {
 			c = modbus.NewTCPClientWithConfig(conf)
@@ -346,7 +356,11 @@ func runShared(rc *RunCtx, sc *shScenario) *shOutcome {
 		if sc.Flusher {
 			port = discardingFlushPort{cl} // a port whose Flush really discards what has not been read yet
 		}
-		c := modbus.NewSerialClient(port, modbus.WithSerialReadTimeout(200*time.Millisecond))
+		opts := []modbus.SerialClientOptionFunc{modbus.WithSerialReadTimeout(200 * time.Millisecond)}
+		if hooks != nil {
+			opts = append(opts, modbus.WithSerialHooks(hooks))
+		}
+		c := modbus.NewSerialClient(port, opts...)
 		doer, closer = c, c.Close
 		connect = func() error { return nil }
 	}
@@ -576,6 +590,9 @@ func runC14(rc *RunCtx) {
 	if out.HeldBad != "" {
 		rc.Violate("earlier_response_changed", base, "%s", out.HeldBad)
 	}
+	if out.HookBad != "" {
+		rc.Violate("hooks_interleaved", base, "%s", out.HookBad)
+	}
 	if sc.Cancels {
 		rc.Probe("runs_with_expiring_contexts")
 		return // replies to abandoned requests arrive later: attribution and linearizability are not defined for these runs
@@ -678,4 +695,64 @@ func (p discardingFlushPort) Flush() error {
 	p.c.sim.logLocked("flush %s", p.c.Name)
 	p.c.unlock()
 	return nil
+}
+
+// shHooks are logging hooks on the shared client. Every call is a scheduling point (a hook may block, e.g. on a log
+// sink), and the hooks of one request call must not be interleaved with those of another: the calls are carried out one
+// at a time. In race mode the hooks record without any synchronisation of their own, like a naive logger.
+type shHooks struct {
+	s       *Sim
+	race    bool
+	cancels bool
+	tcp     bool
+	mon     *sync.Mutex
+	byFrame map[string]int
+	bad     *string
+	owner   int // caller whose request was written last
+	events  int
+}
+
+func (h *shHooks) yield(what string) {
+	if !h.race {
+		h.s.Park("hook", what, always)
+	}
+}
+
+func (h *shHooks) BeforeWrite(toWrite []byte) {
+	h.yield("before-write")
+	h.events++
+	if h.race {
+		return
+	}
+	h.mon.Lock()
+	defer h.mon.Unlock()
+	if who, ok := h.byFrame[string(toWrite)]; ok {
+		h.owner = who
+	}
+}
+
+func (h *shHooks) AfterEachRead(received []byte, n int, err error) {
+	h.yield("after-read")
+	h.events++
+}
+
+func (h *shHooks) BeforeParse(received []byte) {
+	h.yield("before-parse")
+	h.events++
+	if h.race || h.cancels {
+		return // with abandoned requests a late reply may legitimately reach a later call's parser
+	}
+	h.mon.Lock()
+	defer h.mon.Unlock()
+	unitAt := 0
+	if h.tcp {
+		unitAt = 6
+	}
+	if len(received) <= unitAt {
+		return
+	}
+	who := int(received[unitAt]) - 1 // callers use unit id 1+index
+	if h.owner >= 0 && who != h.owner && *h.bad == "" {
+		*h.bad = fmt.Sprintf("the before-parse hook was called with caller %d's reply after the before-write hook had already been called for caller %d's request: the hooks of two request calls are interleaved", who, h.owner)
+	}
 }
